@@ -11,7 +11,7 @@ use monero::consensus::encode::{deserialize, deserialize_partial, serialize, Var
 use monero::util::address::AddressType;
 use monero::util::amount::Denomination;
 use monero::util::ringct::RctType;
-use monero::{Amount, Hash, Network, PublicKey};
+use monero::{Amount, Hash, Network, PublicKey, SignedAmount};
 use std::str::FromStr;
 
 pub struct Observed { pub defs: Vec<(String, String)>, pub fails: Vec<String> }
@@ -80,6 +80,20 @@ fn denomination_tables(o: &mut Observed, candidates: &[String]) {
     match r { Ok(rows) => o.defs.push(("denomFromStr".into(), format!("[{}]", rows.join(", ")))), Err(m) => o.fails.push(format!("EXTRACT-FAIL amount.denom_fromstr: panicked: {}", m)) }
 }
 
+/// C15: the byte cap of the amount parser, OBSERVED: all-zero literals denote 0 whatever their length, so only the length test can
+/// refuse them; the accepted lengths must be an initial segment 1..=N for both amount types and every denomination
+fn parser_consts(o: &mut Observed) {
+    let r = guarded(|| { let mut caps = vec![];
+        for (d, _) in DENOMS { for signed in [false, true] {
+            let acc: Vec<usize> = (1..=300usize).filter(|&n| { let s = "0".repeat(n); if signed { SignedAmount::from_str_in(&s, d).is_ok() } else { Amount::from_str_in(&s, d).is_ok() } }).collect();
+            if acc.last().copied().unwrap_or(0) != acc.len() { return Err(format!("accepted lengths of all-zero literals are not an initial segment ({} accepted, longest {:?})", acc.len(), acc.last())); }
+            caps.push(acc.len()); } }
+        caps.dedup(); if caps.len() == 1 { Ok(caps[0]) } else { Err(format!("the cap differs between types / denominations: {:?}", caps)) } });
+    match r { Ok(Ok(n)) => o.defs.push(("amtMaxLen".into(), n.to_string())),
+        Ok(Err(why)) => o.fails.push(format!("EXTRACT-FAIL amount.parse.max_len: observed behaviour does not fit a single length cap: {}", why)),
+        Err(m) => o.fails.push(format!("EXTRACT-FAIL amount.parse.max_len: the parser panicked on an all-zero literal: {}", m)) }
+}
+
 fn payloads() -> [Vec<u8>; 2] { [vec![0u8; 300], { let mut v = vec![1u8; 300]; v[0] = 0; v }] }
 fn codec_tables(o: &mut Observed) {
     // decoders: every tag byte followed by a payload that every variant accepts
@@ -129,6 +143,6 @@ fn consts(o: &mut Observed) {
 
 pub fn run(fromstr_candidates: &[String]) -> Observed {
     let mut o = Observed { defs: vec![], fails: vec![] };
-    consts(&mut o); network_tables(&mut o); address_tables(&mut o); denomination_tables(&mut o, fromstr_candidates); codec_tables(&mut o);
+    consts(&mut o); network_tables(&mut o); address_tables(&mut o); denomination_tables(&mut o, fromstr_candidates); codec_tables(&mut o); parser_consts(&mut o);
     o
 }
